@@ -352,7 +352,7 @@ static void do_line(char *line)
             cmd_release();
         /* a loop that does not end in the code under test ends the execution
          * (SIGALRM: reported as a "san" event of kind signal) */
-        alarm(15);
+        alarm(25);
         printf("exec %s\n", ntok > 1 ? tok[1] : "?");
     } else if (!strcmp(tok[0], "end")) {
         if (framer != NULL)
